@@ -4,3 +4,5 @@ import EoNVerif.Model.ListDictLaw
 import EoNVerif.Rand.Dist
 import EoNVerif.Model.Tape
 import EoNVerif.Model.Gillespie
+import EoNVerif.Spec.Chain
+import EoNVerif.Spec.Predicates
